@@ -489,3 +489,46 @@ pub fn cmd_trace(args: &[String]) -> i32 {
     println!("{}", json!({"events": events, "runs": runs}));
     0
 }
+
+// ---------------------------------------------------------------- Repeat
+
+/// repeat-replay --paths FILE: each line is a path of {from, act, to} steps of
+/// specs/Repeat.tla; replayed on the real rustradio::Repeat.
+pub fn cmd_repeat_replay(args: &[String]) -> i32 {
+    quiet_panics();
+    let file = arg_val(args, "--paths").expect("--paths");
+    let f = std::io::BufReader::new(std::fs::File::open(&file).expect("open paths"));
+    let (mut paths, mut steps) = (0usize, 0usize);
+    let mut fails: Vec<Value> = Vec::new();
+    for (idx, line) in f.lines().enumerate() {
+        let line = line.unwrap();
+        if line.trim().is_empty() {
+            continue;
+        }
+        let st: Vec<Value> = serde_json::from_str(&line).expect("json");
+        paths += 1;
+        let start = st[0]["from"]["rem"].as_i64().unwrap();
+        let mut r = if start < 0 { rustradio::Repeat::infinite() } else { rustradio::Repeat::finite(start as u64) };
+        for (i, s) in st.iter().enumerate() {
+            let act = s["act"].as_str().unwrap();
+            let want = s["to"]["last"].as_str().unwrap().to_string();
+            let got = match act {
+                "again" => catch(|| r.again()).map(|b| b.to_string()),
+                "done" => catch(|| r.done()).map(|b| b.to_string()),
+                _ => catch(|| r.count()).map(|c| c.to_string()),
+            };
+            steps += 1;
+            let count_ok = catch(|| r.count()).map(|c| c as i64 == s["to"]["count"].as_i64().unwrap()).unwrap_or(false);
+            let rem = s["to"]["rem"].as_i64().unwrap();
+            let done_ok = catch(|| r.done()).map(|d| d == (rem == 0)).unwrap_or(false);
+            let ok = matches!(&got, Ok(g) if *g == want) && count_ok && done_ok;
+            if !ok {
+                fails.push(json!({"path": idx, "step": i, "act": act, "start": start, "want": want,
+                    "got": match got { Ok(g) => g, Err(p) => format!("panic: {p}") }, "count_ok": count_ok, "done_ok": done_ok}));
+                break;
+            }
+        }
+    }
+    println!("{}", json!({"paths": paths, "steps": steps, "nfail": fails.len(), "fails": fails.iter().take(10).collect::<Vec<_>>()}));
+    0
+}
